@@ -161,7 +161,10 @@ fn feed_step(st: &mut State, step: &Step, counts: &mut Vec<&'static str>) -> Res
     // sinks
     let mut seen: Vec<u32> = Vec::new();
     let mut calls_after_false = 0usize;
-    let mut stopped = false;
+    // (cells: the caller changes its mind between two feedings of the same callback object)
+    let stop_at_now = std::cell::Cell::new(stop_at);
+    let stopped = std::cell::Cell::new(false);
+    let mut second: Option<(usize, Vec<u32>, Vec<u32>)> = None;
     let mut held: Vec<Tok> = Vec::new();
     let mut vec_sink: Vec<Tok> = Vec::new();
     let mut ext_sink: VecDeque<Tok> = VecDeque::new();
@@ -172,13 +175,14 @@ fn feed_step(st: &mut State, step: &Step, counts: &mut Vec<&'static str>) -> Res
     }
     // a callback's body may itself feed another callback (two closure callbacks active at once)
     let nested = sink_kind == 0 && step.arg(5) & 2 == 2;
+    let reuse = sink_kind == 0 && via == 1 && step.arg(5) & 4 == 4;
     let mut inner_bad: Vec<String> = Vec::new();
     if nested {
         counts.push("fault.nested_feed_inside_callback");
     }
     {
         let mut closure = |t: Tok| -> bool {
-            if stopped {
+            if stopped.get() {
                 calls_after_false += 1;
             }
             if nested {
@@ -195,8 +199,8 @@ fn feed_step(st: &mut State, step: &Step, counts: &mut Vec<&'static str>) -> Res
             }
             seen.push(t.id);
             held.push(t);
-            if Some(seen.len() - 1) == stop_at {
-                stopped = true;
+            if Some(seen.len() - 1) == stop_at_now.get() {
+                stopped.set(true);
                 false
             } else {
                 true
@@ -219,6 +223,16 @@ fn feed_step(st: &mut State, step: &Step, counts: &mut Vec<&'static str>) -> Res
             }
             1 => {
                 count = Some((&mut src).feed_into_mut(&mut cb));
+                if reuse && stopped.get() {
+                    // the same callback object is fed again; what it answers now is up to the
+                    // closure behind it, which has changed its mind
+                    stop_at_now.set(None);
+                    stopped.set(false);
+                    let (items2, ids2) = fresh(st, 2);
+                    let mut src2 = SimIter { items: items2, none_at: None, pulled: 0, gave_none: false, calls: 0 };
+                    let c2 = (&mut src2).feed_into_mut(&mut cb);
+                    second = Some((c2, ids2, src2.items.iter().map(|t| t.id).collect()));
+                }
             }
             2 => {
                 cb.extend(&mut src);
@@ -253,8 +267,17 @@ fn feed_step(st: &mut State, step: &Step, counts: &mut Vec<&'static str>) -> Res
     if via == 4 {
         counts.push("party.c");
     }
+    let mut first_seen = seen.clone();
+    let mut live_extra: Vec<u32> = Vec::new();
+    if let Some((c2, ids2, left2)) = &second {
+        counts.push("fault.callback_reused_after_stop");
+        let tail = first_seen.split_off(offered.min(first_seen.len()));
+        vcheck!(*c2 == 2 && &tail == ids2 && left2.is_empty(), "feed.reuse_after_stop", "sink0:via1",
+            "a callback that had answered false was fed two more items {:?} while its closure accepts everything: it was invoked for {:?}, the feed reported {} and left {:?} in the source", ids2, tail, c2, left2);
+        live_extra = ids2.clone();
+    }
     let got: Vec<u32> = match sink_kind {
-        0 => seen.clone(),
+        0 => first_seen.clone(),
         1 => vec_sink.iter().map(|t| t.id).collect(),
         2 => ext_sink.iter().map(|t| t.id).collect(),
         _ => fsink.seen.iter().map(|t| t.id).collect(),
@@ -275,6 +298,7 @@ fn feed_step(st: &mut State, step: &Step, counts: &mut Vec<&'static str>) -> Res
     // every offered item is alive exactly once inside the sink, the rest inside the source (or gone with it)
     let base_live: Vec<u32> = st.it.as_ref().map(|it| it.src.items.iter().map(|t| t.id).collect()).unwrap_or_default();
     let mut live: Vec<u32> = got.clone();
+    live.extend(live_extra.iter().copied());
     live.extend(src.items.iter().map(|t| t.id));
     live.extend(base_live.iter().copied());
     reg_check(st, &live, "after feeding")?;
@@ -520,7 +544,7 @@ impl Engine for FeedEngine {
                         _ => rng.range(-1, len),
                     };
                     let via = if c_party && rng.chance(1, 4) { 4 } else { rng.range(0, 3) };
-                    p.push(t, op, &[len, none_at, sink, stop, via, rng.range(0, 3)]);
+                    p.push(t, op, &[len, none_at, sink, stop, via, rng.range(0, 7)]);
                 }
                 "ISrc" => {
                     let len = rng.range(0, 8);
